@@ -181,6 +181,36 @@ class SymReal:
     def __rtruediv__(s, o):
         return s._div(o, True)
 
+    def _floordiv(s, o, r=False):
+        """exact model of python's floor division: fresh integer k with k <= x/y < k+1"""
+        l = _lift(o)
+        if l is NotImplemented:
+            return NotImplemented
+        q = s._div(o, r)
+        if not isinstance(q, SymReal):
+            return q
+        qz = _simp(q.z)
+        if z3.is_rational_value(qz):
+            fr = Fraction(qz.numerator_as_long(), qz.denominator_as_long())
+            return SymReal(_q(fr.numerator // fr.denominator))
+        k = _ENG.fresh_int("floor_k")
+        kr = z3.ToReal(k)
+        _ENG.solver.add(kr <= qz, qz < kr + 1)
+        _ENG.round_events.append((str(qz)[:80], "floordiv"))
+        return SymReal(kr)
+
+    def __floordiv__(s, o):
+        return s._floordiv(o)
+
+    def __rfloordiv__(s, o):
+        return s._floordiv(o, True)
+
+    def __mod__(s, o):
+        fl = s._floordiv(o)
+        if fl is NotImplemented:
+            return NotImplemented
+        return s - fl * o
+
     def __neg__(s):
         return SymReal(_simp(-s.z))
 
@@ -372,7 +402,7 @@ class Engine:
     def _new_solver(self):
         s = z3.Solver()
         s.set("timeout", self.query_timeout_ms)
-        s.set("random_seed", self.seed % 1000)
+        s.set("random_seed", 0)     # VERIF_SEED never changes solver behaviour (timing would become seed dependent); it selects instances only
         return s
 
     def sat(self, extra):
